@@ -8,6 +8,7 @@ The constants (100, 6), the `==` of completion and the `<=` / `=` of the tracker
 from the sources (`Gen`).
 -/
 import TeosVerif.Lemmas.Tower
+import TeosVerif.Gen.Calls
 
 namespace Teos.C04
 open Teos
@@ -232,5 +233,19 @@ theorem refund_is_one_write (s : Tower) (ks : List Uuid) :
   generalize (ks.foldl refundStep (s, [])) = acc
   obtain ⟨s1, upd⟩ := acc
   exact ⟨_, rfl⟩
+
+/-- **deletion_call_sites_are_the_modelled_ones** (tie to the source, regenerated on every run):
+`Gatekeeper::delete_appointments` is called with `refund = true` only for the completed trackers of
+`Responder::filtered_block_connected`; the rejected trackers there, the watcher's invalid breaches and
+a late appointment whose penalty is rejected are deleted with `refund = false`; tracker statuses are
+written only by `check_confirmations`, `handle_reorged_txs` and `rebroadcast_stale_txs`. -/
+theorem deletion_call_sites_are_the_modelled_ones :
+    Gen.Calls.deleteAppointments = [("responder", "filtered_block_connected", "true"),
+      ("responder", "filtered_block_connected", "false"), ("watcher", "store_triggered_appointment", "false"),
+      ("watcher", "filtered_block_connected", "false")] ∧
+    Gen.Calls.updateTrackerStatus = [("responder", "check_confirmations", ""), ("responder", "handle_reorged_txs", ""),
+      ("responder", "rebroadcast_stale_txs", "")] ∧
+    Gen.Calls.removeUsers = [("gatekeeper", "filtered_block_connected", "")] := by
+  decide
 
 end Teos.C04
